@@ -105,7 +105,7 @@ def enum_short(env, n):
 # ---------------------------------------------------------------------------------------
 # harness-side scanner: measures
 
-_NUM_RE = re.compile(r"0[xXoObB][0-9a-fA-F_]+|\d[\d_]*(?:\.[\d_]+)?(?:[eE][+-]?[\d_]+)?")
+_NUM_RE = re.compile(r"0[xXoObB][\da-fA-F_]+|\d[\d_]*(?:\.[\d_]+)?(?:[eE][+-]?[\d_]+)?")
 _LINEBREAK_RE = re.compile(r"\r\n|\r|\n")
 _EXPR_TOK_RE = re.compile(
     r"""(?P<ws>\s+)|(?P<str>'(?:[^'\\]|\\.)*'|"(?:[^"\\]|\\.)*")|(?P<num>\d[\w.]*)|(?P<word>[^\W\d]\w*)"""
@@ -136,17 +136,21 @@ def _num_value(text):
 
 def magnitudes(src):
     """(largest numeric literal anywhere in the text incl. inside strings, or None when a
-    number-like run cannot be evaluated; longest number-like run)."""
+    number-like run cannot be evaluated; longest number-like run; whether a float-shaped run
+    holds a non-ASCII digit)."""
     big = 0
     longest = 0
+    odd_float = False
     for m in _NUM_RE.finditer(src):
         text = m.group()
         longest = max(longest, len(text))
+        if not text.isascii() and not text.isdecimal() and not text.replace("_", "").isdecimal():
+            odd_float = True
         v = _num_value(text)
         if v is None or v != v:
-            return None, longest
+            return None, longest, odd_float
         big = max(big, v)
-    return big, longest
+    return big, longest, odd_float
 
 
 _ROOT_RE = {}
@@ -281,7 +285,7 @@ def measure(src, env):
                 else:
                     loopctl_outside = True
     src = orig
-    big, longest = magnitudes(src)
+    big, longest, odd_float = magnitudes(src)
     return {
         "env": env,
         "len": len(src),
@@ -295,6 +299,7 @@ def measure(src, env):
         "pow": "**" in src,
         "tags": ntags,
         "loopctl_outside": loopctl_outside,
+        "odd_float": odd_float,
         "nfkc": src.isascii() or unicodedata.is_normalized("NFKC", src),
         "surrogate": any("\ud800" <= ch <= "\udfff" for ch in src) if not src.isascii() else False,
     }
@@ -312,6 +317,8 @@ def excluded_reason(m):
         return "block_depth"  # F2: CPython's static nesting limits
     if m["expr"] >= MAX_EXPR_DEPTH or m["chain"] >= MAX_CHAIN:
         return "expr_depth"  # F2: recursion limits
+    if m["odd_float"]:
+        return "nonascii_float"  # F41: float literal spelled with non-ASCII digits
     # F19 (unbounded constant folding): every generator keeps magnitudes small
     if m["num"] is None or m["numlen"] > 12:
         return "magnitude"
